@@ -5,7 +5,8 @@ import (
 	"os"
 
 	"github.com/ajitpratap0/GoSQLX/pkg/gosqlx"
-	_ "pgregory.net/rapid"
+	"github.com/ajitpratap0/GoSQLX/pkg/sql/ast"
+	"verif/internal/astdump"
 )
 
 func main() {
@@ -15,6 +16,6 @@ func main() {
 			fmt.Printf("%q => ERR %v\n", s, err)
 			continue
 		}
-		fmt.Printf("%q => OK %d stmts: %s\n", s, len(a.Statements), a.SQL())
+		fmt.Printf("%q => OK %d stmts\n  SQL: %s\n  FMT: %q\n  DUMP: %s\n", s, len(a.Statements), a.SQL(), a.Format(ast.FormatOptions{AddSemicolon: true, KeywordCase: ast.KeywordPreserve}), astdump.Dump(a.Statements))
 	}
 }
